@@ -184,6 +184,18 @@ func TestVerifSketch(t *testing.T) {
 					shadow[h] += n
 				}
 				checkEst(h)
+				if r.chance(8) && len(s.Table) <= 256 {
+					// a restore: many keys come back with their saved frequencies at once
+					for j := 0; j < 3*len(s.Table); j++ {
+						hh := r.next()
+						s.Addn(hh, 15)
+						tr.op("addn", ss("1", u(hh), "15"), nil)
+						shadow[hh] += 15
+					}
+				}
+				if s.Additions >= s.SampleSize {
+					viol("C17: after a bulk Addn the aging clock stands at %d, at or beyond the sample period %d: Add only resets when the clock EQUALS the period, so no aging reset will occur any more", s.Additions, s.SampleSize)
+				}
 			case x < 96:
 				tr.op("estimate", ss("2", u(h)), ss(u(uint64(s.Estimate(h)))))
 				checkEst(h)
